@@ -186,8 +186,17 @@ Section Multi.
     | RFuel => MFuel
     end.
 
-  (** ReadTreeReader, FORMAT_NEWICK: newick.NewParser(reader).Parse() on the whole input *)
-  Definition first_tree_newick (s : string) : utree + string := nparse s.
+  (** ReadTreeReader, FORMAT_NEWICK (after the fix 6227553; before it: the parser on the whole input, line breaks
+      included): line, err = ReadUntilSemiColon(reader); if err != nil && line == "" { return nil, err };
+      newick.NewParser(strings.NewReader(line)).Parse() -- the text of the first tree is taken as ReadMultiTrees takes
+      it; a text without ';' at the end of the input is still handed to the parser *)
+  Definition first_tree_newick (reads : list phys_read) : utree + string :=
+    match read_until_semicolon reads with
+    | RLine line _ => nparse line
+    | REof line => if String.eqb line "" then inr "EOF" else nparse line
+    | RPanic => inr "panic"
+    | RFuel => inr "out of fuel"
+    end.
 
   (** the first record delivered by the multi-tree reader *)
   Definition head_multi (r : multi_res) : option item :=
